@@ -1,0 +1,11 @@
+//go:build verif
+
+package spec
+
+import auto "github.com/moorara/algo/automata"
+
+// VerifRegexToDFA exposes the token pipeline's pattern-to-DFA conversion to the verification hook.
+func VerifRegexToDFA(regex string) (*auto.DFA, error) { return regexToDFA(regex) }
+
+// VerifStringToDFA exposes the token pipeline's literal-to-DFA conversion to the verification hook.
+func VerifStringToDFA(value string) *auto.DFA { return stringToDFA(value) }
